@@ -601,7 +601,11 @@ pub fn c05(big: bool) -> BoxedStrategy<Case> {
 pub fn c12(big: bool) -> BoxedStrategy<Case> {
     let max_ops = if big { 16 } else { 10 };
     let mb = prop_oneof![5 => (0u8..=4).prop_map(Mailbox::Bounded), 1 => Just(Mailbox::Unbounded)];
-    let spawn = (mb, any::<bool>()).prop_map(|(mailbox, owning)| SpawnSpec::Build { mailbox, strategy: RStrat::Default, timeout: None, fail_on_timeout: false, owning });
+    let spawn = prop_oneof![
+        9 => (mb, any::<bool>()).prop_map(|(mailbox, owning)| SpawnSpec::Build { mailbox, strategy: RStrat::Default, timeout: None, fail_on_timeout: false, owning }),
+        // the stream builder's bounded terminals must apply the bound as well
+        1 => (0u8..=3, any::<bool>()).prop_map(|(n, owning)| SpawnSpec::Stream { builder: Some(Mailbox::Bounded(n)), owning }),
+    ];
     let base = OpWeights { send: 55, call: 12, ping: 6, convert: 8, yield_: 5, sleep: 4, give: 1, drop: 0, stop: 2, try_stop: 1, call_drop: 8, max_sleep: 6, ..MSG_WEIGHTS };
     let timers = prop_oneof![
         3 => Just(vec![]),
@@ -816,7 +820,9 @@ pub fn c10(big: bool) -> BoxedStrategy<Case> {
 
 pub fn c11(big: bool) -> BoxedStrategy<Case> {
     let max_ops = if big { 12 } else { 8 };
-    (proptest::option::weighted(0.85, 1u32..=100), any::<bool>(), mailbox(), any::<bool>(), 1usize..=3)
+    let tval = prop_oneof![12 => 1u32..=100, 1 => 1000u32..=2500];
+    let strat = prop_oneof![4 => Just(RStrat::Default), 1 => Just(RStrat::Recreate), 1 => Just(RStrat::NonRestartable)];
+    (proptest::option::weighted(0.85, tval), any::<bool>(), (mailbox(), strat), any::<bool>(), 1usize..=3)
         .prop_flat_map(move |(timeout, fail, mb, owning, n)| {
             let t = timeout.unwrap_or(20);
             // durations around the limit: t-1, t+1, << t, >> t, split into 1-3 sleeps
@@ -851,8 +857,8 @@ pub fn c11(big: bool) -> BoxedStrategy<Case> {
             ];
             (Just((timeout, fail, mb, owning)), grants(n, owning, 1), vec(vec(op, 2..=max_ops), n..=n), schedule(32))
         })
-        .prop_map(|((timeout, fail_on_timeout, mailbox, owning), grants, clients, schedule)| {
-            let spawn = SpawnSpec::Build { mailbox, strategy: RStrat::Default, timeout, fail_on_timeout: fail_on_timeout && timeout.is_some(), owning };
+        .prop_map(|((timeout, fail_on_timeout, (mailbox, strategy), owning), grants, clients, schedule)| {
+            let spawn = SpawnSpec::Build { mailbox, strategy, timeout, fail_on_timeout: fail_on_timeout && timeout.is_some(), owning };
             let mut c = Case {
                 family: Family::C11,
                 actors: one_actor(spawn, Behavior::default()),
@@ -876,6 +882,7 @@ pub fn c13(big: bool) -> BoxedStrategy<Case> {
         base,
         vec![
             (22, (any::<u8>(), 0u8..5).prop_map(|(stream, n)| ClientOp::Feed { stream, n }).boxed()),
+            (2, (any::<u8>(), 90u8..140).prop_map(|(stream, n)| ClientOp::Feed { stream, n }).boxed()),
             (3, any::<u8>().prop_map(|stream| ClientOp::EndStream { stream }).boxed()),
         ],
     );
@@ -918,7 +925,7 @@ pub fn c17(big: bool) -> BoxedStrategy<Case> {
         1 => (0u32..10).prop_map(Cause::Cancel),
     ];
     let base = OpWeights { send: 22, call: 22, ping: 4, convert: 10, yield_: 4, sleep: 3, give: 2, drop: 3, stop: 6, halt: 1, await_: 2, join: 12, consume: 4, detach: 3, max_sleep: 4, ..MSG_WEIGHTS };
-    let op = mixed_ops(base, vec![(5, msg_op(1, 1, ctx_work(3, 3, 0))), (3, h().prop_map(|h| ClientOp::JoinStash { h }).boxed())]);
+    let op = mixed_ops(base, vec![(5, msg_op(1, 1, ctx_work(3, 3, 0))), (3, h().prop_map(|h| ClientOp::JoinStash { h }).boxed()), (3, h().prop_map(|h| ClientOp::JoinDiscard { h }).boxed())]);
     (spawn, cause, 1usize..=3, slow_callback())
         .prop_flat_map(move |(spawn, cause, n, stopped)| (Just(spawn), Just((cause, stopped)), grants(n, true, 1), vec(vec(op.clone(), 3..=max_ops), n..=n), schedule(if big { 96 } else { 48 })))
         .prop_map(|(spawn, (cause, stopped), grants, clients, schedule)| {
@@ -998,8 +1005,8 @@ pub fn c16(big: bool) -> BoxedStrategy<Case> {
         let work = vec![Step::SendToChildren { reg, tag: 0 }];
         if call { ClientOp::Call { h, work } } else { ClientOp::Send { h, work } }
     });
-    let base = OpWeights { send: 14, call: 14, ping: 3, convert: 4, yield_: 6, sleep: 8, give: 1, drop: 8, stop: 6, halt: 2, try_stop: 1, await_: 2, max_sleep: 4, ..MSG_WEIGHTS };
-    let op = mixed_ops(base, vec![(30, bcast.boxed()), (4, msg_op(1, 1, ctx_work(2, 3, 0)))]);
+    let base = OpWeights { send: 14, call: 14, ping: 3, convert: 4, yield_: 6, sleep: 8, give: 1, drop: 8, stop: 6, halt: 2, try_stop: 1, await_: 2, restart: 5, max_sleep: 4, ..MSG_WEIGHTS };
+    let op = mixed_ops(base, vec![(30, bcast.boxed()), (4, msg_op(1, 1, ctx_work(2, 3, 2)))]);
     let cause = prop_oneof![
         4 => Just(Cause::None),
         1 => Just(Cause::StartFail(FailHow::Err)),
@@ -1008,13 +1015,13 @@ pub fn c16(big: bool) -> BoxedStrategy<Case> {
         1 => Just(Cause::StopPanic),
         2 => (1u32..10).prop_map(Cause::Cancel),
     ];
-    (vec(child, 1..=5), cause, 1usize..=2, plain_spawn(false))
+    (vec(child, 1..=5), cause, 1usize..=2, (plain_spawn(true), slow_callback()))
         .prop_flat_map(move |(kids, cause, n, root_spawn)| {
-            let owning = root_spawn.owning();
+            let owning = root_spawn.0.owning();
             (Just(kids), Just(cause), Just(root_spawn), grants(n, owning, 1), vec(vec(op.clone(), 2..=max_ops), n..=n), schedule(if big { 96 } else { 48 }))
         })
-        .prop_map(|(kids, cause, root_spawn, grants, clients, schedule)| {
-            let mut actors = vec![ActorSpec { kind: 0, spawn: root_spawn, parent: None, beh: Behavior::default(), peer: None }];
+        .prop_map(|(kids, cause, (root_spawn, slow_stopped), grants, clients, schedule)| {
+            let mut actors = vec![ActorSpec { kind: 0, spawn: root_spawn, parent: None, beh: Behavior { stopped: slow_stopped, ..Default::default() }, peer: None }];
             let mut depths = vec![0usize];
             for (psel, (under, also), outside, kind, mb) in kids {
                 let also_under = also.filter(|a| *a != under);
@@ -1098,7 +1105,8 @@ pub fn c14(big: bool) -> BoxedStrategy<Case> {
             grants.push(Grant { client: 0, actor: 0, kind: HKind::WeakAddr });
             let mut clients = vec![c0];
             clients.append(&mut rest);
-            finalize(Case { family: Family::C14, actors: one_actor(spawn, Behavior::default()), default_beh: vec![], grants, clients, faults, schedule, settle: 0 })
+            let stopped = if schedule.len() % 3 == 0 { vec![Step::Yield, Step::Sleep(2), Step::Yield] } else { vec![] };
+            finalize(Case { family: Family::C14, actors: one_actor(spawn, Behavior { stopped, ..Default::default() }), default_beh: vec![], grants, clients, faults, schedule, settle: 0 })
         })
         .boxed()
 }
@@ -1107,7 +1115,7 @@ pub fn c08(big: bool) -> BoxedStrategy<Case> {
     let max_ops = if big { 7 } else { 5 };
     // handles come from the registry operations themselves
     let base = OpWeights { send: 3, call: 5, ping: 2, convert: 0, yield_: 8, sleep: 5, give: 0, drop: 4, stop: 30, halt: 8, try_stop: 0, await_: 3, max_sleep: 3, ..MSG_WEIGHTS };
-    let op = mixed_ops(base, vec![(48, reg_op(2, [12, 2, 5, 2, 2, 5, 4])), (8, msg_op(1, 1, ctx_work(1, 5, 0)))]);
+    let op = mixed_ops(base, vec![(48, reg_op(2, [12, 2, 5, 2, 2, 5, 4])), (8, msg_op(1, 1, ctx_work(1, 5, 0))), (6, h().prop_map(|h| ClientOp::RegisterHeld { h }).boxed())]);
     let nested = prop_oneof![6 => Just(false), 1 => Just(true)];
     let pre = prop_oneof![2 => Just(None), 1 => proptest::option::of(mailbox()).prop_map(Some)];
     (1usize..=4, nested, pre)
